@@ -157,7 +157,7 @@ class Def:
                 isp = "true" if t.strip() in fps else "false"
                 fs.append(f'Field {{ name: "{n}".to_string(), ty: <{t} as vcore::dom::Dom>::ty(), is_param: {isp} }}')
             style = {"named": "Named", "tuple": "Tuple", "unit": "Unit"}[v.style]
-            vts.append(f'Variant {{ name: "{v.name}".to_string(), style: VStyle::{style}, fields: vec![{", ".join(fs)}] }}')
+            vts.append(f'Variant {{ name: "{v.name}".to_string(), style: VStyle::{style}, fields: vec![{", ".join(fs)}], disc: {("Some(" + v.disc + ")") if v.disc else "None"} }}')
         is_enum = "true" if self.kind == "enum" else "false"
         zero = "true" if self.zero else "false"
         out = [f"impl{g} vcore::dom::Dom for {st}{where} {{"]
@@ -296,6 +296,7 @@ def curated():
         E("EU", [V("North", "unit", []), V("South", "unit", []), V("East", "unit", [])], ZC),
         E("ED", [V("Low", "unit", [], "1"), V("Mid", "unit", [], "2"), V("High", "unit", [], "4")]),
         E("EDZ", [V("Low", "unit", [], "1"), V("Mid", "unit", [], "2"), V("High", "unit", [], "4")], ZC),
+        E("EDM", [V("A", "unit", [], "3"), V("B", "unit", []), V("C", "unit", [], "10"), V("D", "unit", [])], ZC),
         S("D1", [("id", "u32"), ("name", "String"), ("data", "Vec<u16>")]),
         S("D1Z", [("data", "[u8; 4]")], ("deep_copy",)),
         S("DN", [("0", "P1")], ("deep_copy",), style="tuple"),
